@@ -311,6 +311,50 @@ func nearMisses() []ParseCase {
 		rej("a character that no token can start with", x, "$"+x, "$ "+x+" 1", "$["+x+"]", "$."+x, "$.a"+x, "$ ? (@ "+x+" 1)", x+"$", "$ "+x, "$.a "+x+" $.b", "("+x+")", "$.a["+x+" to 1]", "$ ? ("+x+")", "1 "+x+" 1", "$.**{"+x+"}", "$.abs"+x+"()", x+" "+x)
 		acc("any character inside a string, quoted key or comment", `"`+x+`"`, `$."`+x+`"`, `$"`+x+`"`, "$ /* "+x+" */")
 	}
+	// surrogate escapes: a sequence of escapes is valid exactly when it reads as (high low | non-surrogate)*
+	{
+		forms := [][3]string{{`\ud83d`, `\ude04`, `\u0041`}, {`\u{D83D}`, `\u{DE04}`, `\u{41}`}, {`\uD83D`, `\u{de04}`, `\u0041`}, {`\udbff`, `\udc00`, `\u{e000}`}, {`\ud800`, `\udfff`, `\ud7ff`}}
+		var seqs [][]int
+		var rec func(p []int)
+		rec = func(p []int) {
+			if len(p) > 0 {
+				seqs = append(seqs, append([]int{}, p...))
+			}
+			if len(p) == 3 {
+				return
+			}
+			for k := 0; k < 3; k++ {
+				rec(append(p, k))
+			}
+		}
+		rec(nil)
+		for _, f := range forms {
+			for _, sq := range seqs {
+				txt, valid := "", true
+				for i := 0; i < len(sq); i++ {
+					txt += f[sq[i]]
+				}
+				for i := 0; i < len(sq); {
+					switch {
+					case sq[i] == 2:
+						i++
+					case sq[i] == 0 && i+1 < len(sq) && sq[i+1] == 1:
+						i += 2
+					default:
+						valid = false
+						i = len(sq)
+					}
+				}
+				for _, in := range []string{`"` + txt + `"`, `$."` + txt + `"`, `$"` + txt + `"`, `$.a` + txt, `$ ? (@ starts with "x` + txt + `")`, `$ like_regex "` + txt + `"`} {
+					if valid {
+						acc("surrogate escapes forming pairs", in)
+					} else {
+						rej("lone or misordered surrogate escape", in)
+					}
+				}
+			}
+		}
+	}
 	// deep and long inputs: recursion depth and buffer handling (accepted, no panic, no hang)
 	deep := 20000
 	acc("deep or long input",
